@@ -32,7 +32,42 @@ fn classify(payload: Box<dyn std::any::Any + Send>) -> SimPanic {
 /// Run a simulator entry point; panics are caught and classified.
 pub fn sim_guard<T>(f: impl FnOnce() -> T) -> Result<T, SimPanic> {
     let _ = take_panics();
+    let _quiet = StdoutToStderr::new();
     std::panic::catch_unwind(std::panic::AssertUnwindSafe(f)).map_err(classify)
+}
+
+/// bolero's test engine prints progress statistics with `println!` while an exhaustive run is
+/// in flight; stdout is reserved for the verdict lines, so it is pointed at stderr (the log
+/// file set up by run.sh) for the duration of a simulator call.
+struct StdoutToStderr {
+    saved: i32,
+}
+
+impl StdoutToStderr {
+    fn new() -> Self {
+        use std::io::Write;
+        let _ = std::io::stdout().flush();
+        // SAFETY: plain fd duplication on the process's own stdout/stderr
+        let saved = unsafe { libc::dup(1) };
+        if saved >= 0 {
+            unsafe { libc::dup2(2, 1) };
+        }
+        StdoutToStderr { saved }
+    }
+}
+
+impl Drop for StdoutToStderr {
+    fn drop(&mut self) {
+        use std::io::Write;
+        let _ = std::io::stdout().flush();
+        if self.saved >= 0 {
+            // SAFETY: restores the descriptor saved in `new`
+            unsafe {
+                libc::dup2(self.saved, 1);
+                libc::close(self.saved);
+            }
+        }
+    }
 }
 
 pub fn compile(flow: SimFlow<'_>) -> Result<CompiledSim, SimPanic> {
